@@ -11,7 +11,7 @@ def check(tier, seed, replay=None):
     run.cov["trusted_base"] = wire.WIRE_TRUSTED
     broken = None
     try:
-        wire.maybe_proof(run, "props/C09.v", ["C09"])
+        wire.maybe_proof(run, "props/C09.v", ["C09_must"])
     except BrokenTie as e:
         broken = e
     found = False
